@@ -192,7 +192,8 @@ def dispatch? (op : String) (j : Json) : Option Json :=
     | some toks =>
       match Demes.Spec.MsSem.parse toks with
       | .ok pr => okJ (Json.mkObj [("tame1", .bool (Demes.Spec.C08.Tame' pr)), ("tame2", .bool (Demes.Spec.C08.Tame2 pr)),
-                               ("tame3", .bool (Demes.Spec.C08.Tame3 pr))])
+                               ("tame3", .bool (Demes.Spec.C08.Tame3 pr)),
+                               ("tame13", .bool (Demes.Spec.C08.Tame13 pr))])
       | .error e => Json.mkObj [("err", .str e)]
     | none => failJ "tokens"
   else if op = "graph_sem" then some <|
